@@ -584,11 +584,14 @@ func (ex *Exec) call(fn *ssa.Function, args []Value, fv []Value) Value {
 		// package initialisers are run on demand, not from one another
 		return nil
 	}
+	if ex.threads != nil && ex.threads.running && ex.threads.cur != nil && ex.ld.isVisible(fn) {
+		ex.threads.yieldPoint(ex, fn.Name(), false)
+	}
 	if ex.initMode && ex.frame != nil && !ex.inInitGuard && ex.frame.fn.Name() == "init" && ex.frame.fn.Pkg != nil && ex.frame.fn == ex.frame.fn.Pkg.Func("init") {
 		// a failing initialiser expression makes that one global opaque, not the rest of the package
 		return ex.guardedInitCall(fn, args, fv)
 	}
-	if rep := ex.ld.replacement(fn); rep != nil && (rep.group == "" || ex.h.groups[rep.group]) {
+	if rep := ex.ld.replacement(fn, ex.h.groups); rep != nil {
 		ex.stubsSeen[rep.desc] = true
 		if rep.model != nil {
 			return ex.call(rep.model, args, nil)
@@ -841,9 +844,6 @@ func (ex *Exec) runBlocks(f *Frame, start *ssa.BasicBlock) {
 			}
 			if ex.steps > ex.h.cfg.MaxSteps && !ex.initMode {
 				ex.inconclusive(fmt.Sprintf("step cap %d", ex.h.cfg.MaxSteps))
-			}
-			if ex.threads != nil {
-				ex.threads.maybeYield(ex, in)
 			}
 			switch x := in.(type) {
 			case *ssa.If:
